@@ -195,7 +195,7 @@ func keysOf(m map[string]int) []string {
 func TestC14_Scripted(t *testing.T) {
 	c := ev.New("C14", "scripted", "exploration")
 	t.Cleanup(c.Flush)
-	c.Rule("hand-enumerated successor shapes x sweeper phases: SET EX t then, after w, one of {SET without EX, SET EX long, PERSIST, EXPIRE long, EXPIRE short, DEL + SET, FSET, RENAME + PERSIST, SETCHAN EX then SETCHAN without EX, SETHOOK EX then DELHOOK + SETHOOK} for points and strings, t in {0.2,0.45,0.8} s, w in a grid of phases; same oracle as the timed sub-check. Non-trivial as in the timed sub-check; distinct by shape, kind, t and w.")
+	c.Rule("hand-enumerated successor shapes x sweeper phases: SET EX t then, after w, one of {SET without EX, SET EX long, PERSIST, EXPIRE long, EXPIRE short, DEL + SET, FSET, RENAME + PERSIST, SETCHAN EX then SETCHAN without EX, SETHOOK EX then DELHOOK + SETHOOK} for points and strings, plus key-order shapes (a collection sorting first that holds only far-future deadlines; three collections falling due in one sweep; RENAME moving the far-future object to the first key), t in {0.2,0.45,0.8} s, w in a grid of phases; same oracle as the timed sub-check. Non-trivial as in the timed sub-check; distinct by shape, kind, t and w.")
 	var cases []Case
 	var names []string
 	phases := ev.Pick(2, 6)
@@ -240,6 +240,20 @@ func TestC14_Scripted(t *testing.T) {
 				Case{Steps: []Step{{Op: "sethook", Name: "h1", TTL: ttl}, {Op: "setchan", Name: "c1", TTL: ttl + 100}, {Op: "wait", Ms: w, N: 1}, {Op: "setchan", Name: "c1", TTL: 30000}, {Op: "pollhooks"}}, Follower: ph%2 == 0},
 			)
 			names = append(names, fmt.Sprintf("chan/ttl%d/w%d/noex", ttl, w), fmt.Sprintf("hook/ttl%d/w%d/delset", ttl, w), fmt.Sprintf("both/ttl%d/w%d/longer", ttl, w))
+		}
+	}
+	// key order vs deadline order: a collection that sorts first and holds only
+	// far-future deadlines (or none that is due) must not shield later ones;
+	// several collections fall due in the same sweep
+	for _, kind := range []string{"point", "string"} {
+		for ph := 0; ph < phases; ph++ {
+			ttl := 200 + 90*ph
+			cases = append(cases,
+				Case{Steps: []Step{{Op: "setex", Key: "ka", ID: "a", Kind: kind, TTL: 100000, N: 1}, {Op: "setex", Key: "kb", ID: "a", Kind: kind, TTL: ttl, N: 2}, {Op: "setex", Key: "kb", ID: "b", Kind: "point", TTL: ttl + 40, N: 3}, {Op: "wait", Ms: ttl / 2, N: ph % 2}}},
+				Case{Steps: []Step{{Op: "setex", Key: "ka", ID: "a", Kind: kind, TTL: ttl, N: 1}, {Op: "setex", Key: "ka", ID: "b", Kind: kind, TTL: 30000, N: 1}, {Op: "setex", Key: "kb", ID: "a", Kind: kind, TTL: ttl, N: 2}, {Op: "wait", Ms: ttl - 5, N: 0}, {Op: "sweepwait"}, {Op: "poll", Poll: "scanids", Key: "kb"}}},
+				Case{Steps: []Step{{Op: "setex", Key: "kb", ID: "a", Kind: kind, TTL: ttl, N: 1}, {Op: "rename", Key: "kb"}, {Op: "setex", Key: "kb", ID: "b", Kind: kind, TTL: ttl, N: 2}, {Op: "expire", Key: "ka", ID: "a", TTL: 7500}, {Op: "wait", Ms: ttl, N: 1}}, Follower: ph%2 == 1},
+			)
+			names = append(names, fmt.Sprintf("keyorder/%s/ttl%d/far-first", kind, ttl), fmt.Sprintf("keyorder/%s/ttl%d/same-sweep-3-collections", kind, ttl), fmt.Sprintf("keyorder/%s/ttl%d/rename-far-first", kind, ttl))
 		}
 	}
 	if ev.Shards() > 1 {
